@@ -82,7 +82,7 @@ def generate():
                 "Definition rebuild_loop_is_canonical := %s.\n"
                 "Definition commit_is_atomic := %s.\n"
                 % (coq_bool(alias), key_idx, val_idx, coq_bool(canonical), coq_bool(atomic)))
-    except Unsupported as u:
+    except (Unsupported, ValueError, TypeError, IndexError, KeyError, AttributeError, AssertionError, RecursionError) as u:   # any surprise in the source = fail closed
         return (failed("ParamsGen", str(u)) +
                 "Definition dict_branch_aliases := true.\nDefinition pairs_key_index := 0.\n"
                 "Definition pairs_value_index := 0.\nDefinition rebuild_loop_is_canonical := false.\n"
